@@ -691,7 +691,7 @@ class Screen(BaseScreen, RealTerminal):
                     if insertcs != "U":
                         # unprintable bytes are replaced like in every other run
                         inserttext = inserttext.translate(UNPRINTABLE_TRANS_TABLE)
-                    inserttext = inserttext.decode(encoding)
+                    inserttext = inserttext.decode(encoding, "replace")
 
                 output.extend(("\x08" * back, ias))  # pylint: disable=used-before-assignment  # defined in `if row`
 
